@@ -16,6 +16,8 @@ package airgapped
 //@ ghost var $dealsOK bool
 //@ ghost var $responsesOK bool
 //@ ghost var $keyrings int
+//   $keyringSaved  the keyring of the round being finished was written to the database in this operation
+//@ ghost var $keyringSaved bool
 //@ ghost var $logged int
 //   $files = result files written (os.File.Write calls)
 //@ ghost var $files int
@@ -53,7 +55,7 @@ package airgapped
 //@   nosafety
 //@   requires wfMachine(am)
 //@   modifies *
-//@   modifies $handlerErr, $dealsOK, $responsesOK, $keyrings, $handled, $reader, $readerSeed, $ciphers, $bufc, $suites, $suiteSeed, $decryptOK
+//@   modifies $handlerErr, $dealsOK, $responsesOK, $keyrings, $keyringSaved, $handled, $reader, $readerSeed, $ciphers, $bufc, $suites, $suiteSeed, $decryptOK
 //@   epilogue $handled = (result1 == nil)
 //@   ensures $logged == old($logged)
 
@@ -102,7 +104,7 @@ package airgapped
 //@   safety C12
 //@   requires wfMachine(am)
 //@   modifies *
-//@   modifies $handled, $handlerErr, $dealsOK, $responsesOK, $keyrings, $reader, $readerSeed, $ciphers, $bufc, $files, $suites, $suiteSeed, $decryptOK
+//@   modifies $handled, $handlerErr, $dealsOK, $responsesOK, $keyrings, $keyringSaved, $reader, $readerSeed, $ciphers, $bufc, $files, $suites, $suiteSeed, $decryptOK
 //@   loop 0 invariant $logged == old($logged) && wfMachine(am)
 //@   assert@call ProcessOperation[C12.replay.nolog] !storeOperation
 //@   ensures[C12.replay.nolog] $logged == old($logged)
@@ -122,13 +124,16 @@ package airgapped
 //@   requires am != nil
 //@   modifies *
 //@   modifies $suites, $suiteSeed
+//@   assert@call Key[C12.seed.derivation] content(salt) == bytesof("mnemonic") && iter == 2048 && keyLen == 32
 //@   ensures[C12.seed.suite] result == nil ==> $suites > old($suites) && $suiteSeed == content(am.baseSeed)
+// a generated mnemonic and a restored one give the same seed: both paths derive it by the same function
 //@ func (*Machine).loadBaseSeed
 //@   nosafety
 //@   safety C12
 //@   requires am != nil
 //@   modifies *
 //@   modifies $suites, $suiteSeed
+//@   assert@call Key[C12.seed.derivation] content(salt) == bytesof("mnemonic") && iter == 2048 && keyLen == 32
 //@   ensures[C12.seed.suite] result == nil ==> $suites > old($suites) && $suiteSeed == content(am.baseSeed)
 
 //@ func (*Machine).ProcessOperation
@@ -136,7 +141,7 @@ package airgapped
 //@   requires wfMachine(am)
 //@   prologue $handled = false
 //@   modifies *
-//@   modifies $handlerErr, $dealsOK, $responsesOK, $keyrings, $logged, $reader, $readerSeed, $ciphers, $bufc, $suites, $suiteSeed, $decryptOK
+//@   modifies $handlerErr, $dealsOK, $responsesOK, $keyrings, $keyringSaved, $logged, $reader, $readerSeed, $ciphers, $bufc, $suites, $suiteSeed, $decryptOK
 //@   modifies $files
 // (trusted, not proved here: the handlers add a round to dkgInstances only after InitDKGInstance succeeded and never
 // store a nil instance, so the rounds known to the machine stay fully initialised across an operation)
@@ -180,20 +185,28 @@ package airgapped
 //@   nosafety
 //@   requires[C11.certified,C02.certified] $responsesOK
 //@   modifies *
-//@   modifies $keyrings, $bufc, $ciphers
+//@   modifies $keyrings, $keyringSaved, $bufc, $ciphers
+//@   epilogue $keyringSaved = (result == nil)
 //@   ensures $keyrings <= old($keyrings) + 1
+// saving is refused for no reason of its own (a replayed master-key step writes the same keyring again): an error comes
+// only from reading the salt, encoding, encrypting or writing
+//@   erroronly[C12.keyring.rewrite] Get Bytes encrypt Put
 //@ func (*Machine).handleStateDkgMasterKeyAwaitConfirmations
 //@   safety C18
 //@   safetykinds nil dereference, index out of range
 //@   requires wfMachine(am) && o != nil
 //@   prologue $responsesOK = false
+//@   prologue $keyringSaved = false
 //@   modifies *
-//@   modifies $handlerErr, $responsesOK, $keyrings, $bufc, $ciphers
+//@   modifies $handlerErr, $responsesOK, $keyrings, $keyringSaved, $bufc, $ciphers
 //@   epilogue $handlerErr = (result != nil)
 //@   loop 0 invariant o.DKGIdentifier == old(o.DKGIdentifier) && am.dkgInstances == old(am.dkgInstances) && (old(o.DKGIdentifier in am.dkgInstances) ==> (o.DKGIdentifier in am.dkgInstances))
 //@   ensures[C11.nokey] result != nil && !$responsesOK ==> $keyrings == old($keyrings)
 // every participant announces the group key together with the public polynomial of the keyring it stored: the
 // announcements are what the nodes compare (one missing polynomial leaves nothing to compare that participant with)
+// the key is announced only after the machine's own share is safely stored (an announcement followed by a failed save
+// would make the round signing-ready everywhere while this machine holds no share)
+//@   assert@call Marshal[C02.announce.aftersave] $keyringSaved
 //@   assert@call Marshal[C02.announce.poly] istype(v, "requests.DKGProposalMasterKeyConfirmationRequest") && v.(requests.DKGProposalMasterKeyConfirmationRequest).PubPolyBz == loc(pubPolyBz) && v.(requests.DKGProposalMasterKeyConfirmationRequest).MasterKey == loc(masterPubKeyBz)
 
 // ---- what is written to the machine's database as key material is the output of encrypt under the operator's key
@@ -210,7 +223,7 @@ package airgapped
 //@   nosafety
 //@   requires true
 //@   modifies *
-//@   modifies $keyrings, $bufc, $ciphers
+//@   modifies $keyrings, $keyringSaved, $bufc, $ciphers
 //@   assert@call encrypt[C04.db.encrypted] content(key) == content(am.encryptionKey)
 //@   assert@call Put[C04.db.encrypted] content(arg1) in $ciphers
 //@ func (*Machine).SaveKeysToDB
